@@ -661,7 +661,10 @@ def e5(ck: Check) -> None:
         # the list must be known complete at the ensure loop and wherever the node is marked expanded after the enumeration
         marks = [e_.cfgn for e_ in fm.field_events() if e_.kind == "store" and e_.field == "expanded" and is_true(e_.value)
                  and e_.cfgn.id in fm.cfg.reach_avoiding(at if hasattr(at, "id") else fm.cfgn(c), [])
-                 and hn.id not in {d_.id for d_ in fm.cfg.dominators(e_.cfgn)}]
+                 and hn.id not in {d_.id for d_ in fm.cfg.dominators(e_.cfgn)}
+                 # (a mark shared with other arms -- single exit -- that this enumeration only reaches through the ensure
+                 # loop is covered by the obligation at the loop)
+                 and e_.cfgn.id in fm.cfg.reach_avoiding(at if hasattr(at, "id") else fm.cfgn(c), [hn])]
         for point in [hn] + marks:
             _e5_at(ck, fm, f, c, point, point is hn, chain, ltxt, lcanon)
 
